@@ -457,6 +457,22 @@ func init() {
 			if s, ok := a[0].(VStr); ok && s.Atom != nil {
 				return VStr{Atom: s.Atom, N: 45}
 			}
+			if sl, ok := a[0].(VSlice); ok {
+				// byte-level address: its textual rendering is modelled as the same bytes (an immutable string)
+				ts, _ := ex.byteTerms(sl)
+				allc := true
+				for _, t := range ts {
+					allc = allc && t.Const
+				}
+				if allc {
+					raw := make([]byte, len(ts))
+					for i, t := range ts {
+						raw[i] = byte(t.I.Int64())
+					}
+					return concStr(string(raw))
+				}
+				return VStr{Bytes: append([]Term{}, ts...)}
+			}
 			return a[0]
 		}
 		m["(github.com/cosmos/cosmos-sdk/types.AccAddress).String"] = addrString
@@ -492,6 +508,10 @@ func init() {
 			}
 			if s.Conc != nil && (strings.HasPrefix(*s.Conc, "modaddr:") || strings.HasPrefix(*s.Conc, "addr:")) {
 				return VTuple{a[0], nilErr()}
+			}
+			if s.Conc != nil && len(*s.Conc) == 20 {
+				ts, _ := ex.byteTerms(s)
+				return VTuple{termsToSlice(ex, append([]Term{}, ts...)), nilErr()}
 			}
 			if s.Bytes != nil && len(s.Bytes) == 20 {
 				// byte-level strings of length 20 stand for the bech32 rendering of those 20 bytes (String() is the identity)
